@@ -116,7 +116,9 @@ func (st *wStyle) write(b *strings.Builder, e *wEl, inDefault string, declared m
 	}
 	b.WriteString(">")
 	if e.hasText {
-		if st.cdata && !strings.Contains(e.text, "]]>") && st.r.Bool() {
+		// (a carriage return cannot be written literally, in a CDATA section or outside: every XML reader turns it
+		// into a line feed; only the character reference &#13; denotes it)
+		if st.cdata && !strings.Contains(e.text, "]]>") && !strings.Contains(e.text, "\r") && st.r.Bool() {
 			b.WriteString("<![CDATA[" + e.text + "]]>")
 		} else {
 			b.WriteString(escText(e.text))
